@@ -24,6 +24,9 @@ func init() {
 			readerDiscardRules(c, "C07")
 			helperReadDataRules(c, "C07")
 			helperReadMessageRules(c, "C07")
+			helperNextReaderRules(c, "C07")
+			// the standalone validating reader reused through Reset starts in the accepting state again
+			c18Small(c)
 		},
 	})
 }
